@@ -222,3 +222,368 @@ MUTANTS += [
     {"id": "C14-benign-fill-match-propagate", "prop": "C14", "benign": True,
      "edits": [("src/decoder.rs", "                self.buffer_fill()?;\n", "                match self.buffer_fill() {\n                    Ok(()) => {}\n                    Err(error) => return Err(error),\n                }\n")]},
 ]
+
+
+# ---------------------------------------------------------------------------------------------------------------
+# behaviour-preserving refactorings (robustness): every one must stay silent
+# ---------------------------------------------------------------------------------------------------------------
+I8 = " " * 8
+FINISH_BODY = (
+    I8 + "let mut dst = [b'='; 4];\n"
+    + I8 + "let mut iter = buffer[..size].iter();\n"
+    + I8 + "if let Some(s0) = iter.next() {\n"
+    + I12 + "dst[0] = BASE64_ENCODE[(s0 >> 2) as usize];\n"
+    + I12 + "if let Some(s1) = iter.next() {\n"
+    + I16 + "dst[1] = BASE64_ENCODE[(((s0 << 4) | (s1 >> 4)) & 0x3f) as usize];\n"
+    + I16 + "if let Some(s2) = iter.next() {\n"
+    + I16 + "    dst[2] = BASE64_ENCODE[(((s1 << 2) | (s2 >> 6)) & 0x3f) as usize];\n"
+    + I16 + "    dst[3] = BASE64_ENCODE[(s2 & 0x3f) as usize];\n"
+    + I16 + "} else {\n"
+    + I16 + "    dst[2] = BASE64_ENCODE[((s1 << 2) & 0x3f) as usize];\n"
+    + I16 + "}\n"
+    + I12 + "} else {\n"
+    + I16 + "dst[1] = BASE64_ENCODE[((s0 << 4) & 0x3f) as usize];\n"
+    + I12 + "}\n"
+    + I12 + "inner.write_all(&dst)?;\n"
+    + I8 + "}\n"
+    + I8 + "Ok(inner)\n"
+)
+FINISH_MATCH = (
+    I8 + "let mut dst = [b'='; 4];\n"
+    + I8 + "match size {\n"
+    + I12 + "0 => return Ok(inner),\n"
+    + I12 + "1 => {\n"
+    + I16 + "dst[0] = BASE64_ENCODE[(buffer[0] >> 2) as usize];\n"
+    + I16 + "dst[1] = BASE64_ENCODE[((buffer[0] << 4) & 0x3f) as usize];\n"
+    + I12 + "}\n"
+    + I12 + "2 => {\n"
+    + I16 + "dst[0] = BASE64_ENCODE[(buffer[0] >> 2) as usize];\n"
+    + I16 + "dst[1] = BASE64_ENCODE[(((buffer[0] << 4) | (buffer[1] >> 4)) & 0x3f) as usize];\n"
+    + I16 + "dst[2] = BASE64_ENCODE[((buffer[1] << 2) & 0x3f) as usize];\n"
+    + I12 + "}\n"
+    + I12 + "_ => {\n"
+    + I16 + "dst[0] = BASE64_ENCODE[(buffer[0] >> 2) as usize];\n"
+    + I16 + "dst[1] = BASE64_ENCODE[(((buffer[0] << 4) | (buffer[1] >> 4)) & 0x3f) as usize];\n"
+    + I16 + "dst[2] = BASE64_ENCODE[(((buffer[1] << 2) | (buffer[2] >> 6)) & 0x3f) as usize];\n"
+    + I16 + "dst[3] = BASE64_ENCODE[(buffer[2] & 0x3f) as usize];\n"
+    + I12 + "}\n"
+    + I8 + "}\n"
+    + I8 + "inner.write_all(&dst)?;\n"
+    + I8 + "Ok(inner)\n"
+)
+ENC_HELPER = (
+    "    /// Encode 3 bytes into 4 base64 bytes\n"
+    "    #[inline]\n"
+    "    fn encode_u8x3(chunk: [u8; 3]) -> [u8; 4] {\n"
+    "        let [s0, s1, s2] = chunk;\n"
+    "        [\n"
+    "            BASE64_ENCODE[(s0 >> 2) as usize],\n"
+    "            BASE64_ENCODE[(((s0 << 4) | (s1 >> 4)) & 0x3f) as usize],\n"
+    "            BASE64_ENCODE[(((s1 << 2) | (s2 >> 6)) & 0x3f) as usize],\n"
+    "            BASE64_ENCODE[(s2 & 0x3f) as usize],\n"
+    "        ]\n"
+    "    }\n\n"
+)
+FINISH_DOC = "    /// finalize base64 stream, returning underlying stream\n"
+WRITE_EMIT = WRITE_BLOCK + I16 + "self.inner.write_all(&dst)?;\n"
+WRITE_LOOP_HEAD = "        for b in buf.iter().copied() {\n            self.buffer[self.size] = b;\n"
+WRITE_LOOP = (
+    WRITE_LOOP_HEAD
+    + I12 + "self.size += 1;\n"
+    + I12 + "if self.size == 3 {\n"
+    + WRITE_EMIT
+    + I16 + "self.size = 0;\n"
+    + I12 + "}\n"
+    + I8 + "}\n"
+)
+DECODE_SIZE_BODY = (
+    "        let [_, _, i2, i3] = chunk;\n"
+    "        if i2 == b'=' {\n            1\n        } else if i3 == b'=' {\n            2\n        } else {\n            3\n        }\n"
+)
+FILL_STORE = (
+    "            let out = Self::decode_u8x4(input);\n"
+    "            let out_size = Self::decode_size(input);\n"
+    "            self.buffer[self.buffer_size..self.buffer_size + out_size]\n"
+    "                .copy_from_slice(&out[..out_size]);\n"
+    "            self.buffer_size += out_size;\n"
+)
+BUFFER_FN = "    fn buffer(&self) -> &[u8] {\n        &self.buffer[self.buffer_offset..self.buffer_size]\n    }\n"
+READ_LOOP_HEAD = "        let mut out_offset = 0;\n        while out_offset < out.len() {\n"
+READ_RETRY = (
+    "            let mut filled = 0;\n"
+    "            while filled < input.len() {\n"
+    "                let size = self.read.read(&mut input[filled..])?;\n"
+    "                if size == 0 {\n"
+    "                    break;\n"
+    "                }\n"
+    "                filled += size;\n"
+    "            }\n"
+)
+
+MUTANTS += [
+    # seeded/benign C14-A: the 3 -> 4 computation extracted into a private helper returning an array literal, locals renamed
+    {"id": "C14-benign-encode-helper", "prop": "C14", "benign": True,
+     "edits": [("src/encoder.rs", FINISH_DOC, ENC_HELPER + FINISH_DOC),
+               ("src/encoder.rs", WRITE_LOOP_HEAD, "        for byte in buf.iter().copied() {\n            self.buffer[self.size] = byte;\n"),
+               ("src/encoder.rs", WRITE_EMIT, I16 + "let quantum = Self::encode_u8x3(self.buffer);\n" + I16 + "self.inner.write_all(&quantum)?;\n")]},
+    # the helper shared by write and finish (two callers): finish zero-fills the missing octets and overwrites the tail with '='
+    {"id": "C14-benign-encode-helper-shared", "prop": "C14", "benign": True,
+     "edits": [("src/encoder.rs", FINISH_DOC, ENC_HELPER + FINISH_DOC),
+               ("src/encoder.rs", WRITE_EMIT, I16 + "self.inner.write_all(&Self::encode_u8x3(self.buffer))?;\n"),
+               ("src/encoder.rs", FINISH_BODY,
+                I8 + "if size > 0 {\n"
+                + I12 + "let mut chunk = [0u8; 3];\n"
+                + I12 + "chunk[..size].copy_from_slice(&buffer[..size]);\n"
+                + I12 + "let mut dst = Self::encode_u8x3(chunk);\n"
+                + I12 + "for pad in size + 1..4 {\n"
+                + I16 + "dst[pad] = b'=';\n"
+                + I12 + "}\n"
+                + I12 + "inner.write_all(&dst)?;\n"
+                + I8 + "}\n"
+                + I8 + "Ok(inner)\n")]},
+    # seeded/benign C14-A: if / else-if chain -> match on array patterns
+    {"id": "C14-benign-decode-size-match", "prop": "C14", "benign": True,
+     "edits": [("src/decoder.rs", DECODE_SIZE_BODY,
+                "        match chunk {\n            [_, _, b'=', _] => 1,\n            [_, _, _, b'='] => 2,\n            _ => 3,\n        }\n")]},
+    {"id": "C14-benign-decode-size-early-return", "prop": "C14", "benign": True,
+     "edits": [("src/decoder.rs", DECODE_SIZE_BODY,
+                "        const PAD: u8 = b'=';\n        if chunk[2] == PAD {\n            return 1;\n        }\n        if PAD == chunk[3] {\n            return 2;\n        }\n        3\n")]},
+    # seeded/benign C14-C: hoisted out.len(), exact fast path for an empty destination, debug_assert! of invariants
+    {"id": "C14-benign-read-fast-path", "prop": "C14", "benign": True,
+     "edits": [("src/decoder.rs", BUFFER_FN,
+                "    fn buffer(&self) -> &[u8] {\n        debug_assert!(self.buffer_offset <= self.buffer_size);\n"
+                "        debug_assert!(self.buffer_size <= self.buffer.len());\n        &self.buffer[self.buffer_offset..self.buffer_size]\n    }\n"),
+               ("src/decoder.rs", "            let out_size = Self::decode_size(input);\n",
+                "            let out_size = Self::decode_size(input);\n            debug_assert!((1..=3).contains(&out_size));\n"),
+               ("src/decoder.rs", READ_LOOP_HEAD,
+                "        let out_len = out.len();\n        if out_len == 0 {\n            return Ok(0);\n        }\n"
+                "        let mut out_offset = 0;\n        while out_offset < out_len {\n"),
+               ("src/decoder.rs", "let size = buffer.len().min(out.len() - out_offset);", "let size = buffer.len().min(out_len - out_offset);")]},
+    {"id": "C14-benign-read-fast-path-is-empty", "prop": "C14", "benign": True,
+     "edits": [("src/decoder.rs", READ_LOOP_HEAD, "        if out.is_empty() {\n            return Ok(0);\n        }\n" + READ_LOOP_HEAD)]},
+    # seeded/benign C14-B: flipped comparisons, named constants, match on the count, cmp::min
+    {"id": "C14-benign-fill-flipped-named", "prop": "C14", "benign": True,
+     "edits": [("src/decoder.rs", "pub struct Base64Decoder<R> {", "const BASE64_QUANTUM: usize = 4;\nconst BASE64_QUANTUM_DECODED: usize = 3;\n\npub struct Base64Decoder<R> {"),
+               ("src/decoder.rs", "while self.buffer_size + 3 <= self.buffer.len() {\n            let mut input = [0u8; 4];",
+                "while self.buffer.len() >= self.buffer_size + BASE64_QUANTUM_DECODED {\n            let mut input = [0u8; BASE64_QUANTUM];"),
+               ("src/decoder.rs", READ_RETRY + "            if filled == 0 {\n                break;\n            } else if filled != 4 {\n",
+                "            let mut filled = 0;\n            while BASE64_QUANTUM > filled {\n                match self.read.read(&mut input[filled..])? {\n"
+                "                    0 => break,\n                    size => filled += size,\n                }\n            }\n"
+                "            if filled == 0 {\n                break;\n            }\n            if filled != BASE64_QUANTUM {\n"),
+               ("src/decoder.rs", "while out_offset < out.len() {", "while out.len() > out_offset {"),
+               ("src/decoder.rs", "let size = buffer.len().min(out.len() - out_offset);", "let size = std::cmp::min(buffer.len(), out.len() - out_offset);")]},
+    # finish: iterator over the carry -> match on the carry index with indexed reads
+    {"id": "C14-benign-finish-match-size", "prop": "C14", "benign": True,
+     "edits": [("src/encoder.rs", FINISH_BODY, FINISH_MATCH)]},
+    # write: `if index == 3 {..}` -> `if index < 3 { continue; }`, flipped comparison
+    {"id": "C14-benign-write-continue-until-full", "prop": "C14", "benign": True,
+     "edits": [("src/encoder.rs", WRITE_LOOP,
+                WRITE_LOOP_HEAD + I12 + "self.size += 1;\n" + I12 + "if 3 > self.size {\n" + I16 + "continue;\n" + I12 + "}\n"
+                + WRITE_EMIT.replace(I16, I12) + I12 + "self.size = 0;\n" + I8 + "}\n")]},
+    # write: match on the carry index, hoisted index local, while-let loop instead of for
+    {"id": "C14-benign-write-match-while-let", "prop": "C14", "benign": True,
+     "edits": [("src/encoder.rs", WRITE_LOOP,
+                I8 + "let mut bytes = buf.iter();\n" + I8 + "while let Some(&b) = bytes.next() {\n"
+                + I12 + "let index = self.size;\n" + I12 + "self.buffer[index] = b;\n" + I12 + "self.size = index + 1;\n"
+                + I12 + "match self.size {\n" + I16 + "3 => {\n"
+                + WRITE_EMIT.replace(I16, I16 + "    ") + I16 + "    self.size = 0;\n" + I16 + "}\n" + I16 + "_ => continue,\n" + I12 + "}\n" + I8 + "}\n")]},
+    # write: the carry length instead of the literal 3, flipped operands
+    {"id": "C14-benign-write-len-not-literal", "prop": "C14", "benign": True,
+     "edits": [("src/encoder.rs", "            if self.size == 3 {\n", "            if self.buffer.len() == self.size {\n")]},
+    # named constants for the pad character and the sextet mask
+    {"id": "C14-benign-named-constants", "prop": "C14", "benign": True,
+     "edits": [("src/encoder.rs", "/// Writable object which encodes input to base64",
+                "const BASE64_PAD: u8 = b'=';\nconst SEXTET_MASK: u8 = 0x3f;\n\n/// Writable object which encodes input to base64"),
+               ("src/encoder.rs", WRITE_BLOCK, WRITE_BLOCK.replace("b'='", "BASE64_PAD").replace("0x3f", "SEXTET_MASK")),
+               ("src/encoder.rs", FINISH_BODY, FINISH_BODY.replace("b'='", "BASE64_PAD").replace("0x3f", "SEXTET_MASK"))]},
+    # 24-bit accumulator instead of byte-wise shifts
+    {"id": "C14-benign-u32-accumulator", "prop": "C14", "benign": True,
+     "edits": [("src/encoder.rs", WRITE_BLOCK,
+                I16 + "let [s0, s1, s2] = self.buffer;\n"
+                + I16 + "let group = ((s0 as u32) << 16) | ((s1 as u32) << 8) | (s2 as u32);\n"
+                + I16 + "let dst = [\n"
+                + I16 + "    BASE64_ENCODE[(group >> 18) as usize],\n"
+                + I16 + "    BASE64_ENCODE[((group >> 12) & 0x3f) as usize],\n"
+                + I16 + "    BASE64_ENCODE[((group >> 6) & 0x3f) as usize],\n"
+                + I16 + "    BASE64_ENCODE[(group & 0x3f) as usize],\n"
+                + I16 + "];\n")]},
+    # decoder: table look-up helper with four call sites, result through a tuple
+    {"id": "C14-benign-sextet-helper", "prop": "C14", "benign": True,
+     "edits": [("src/decoder.rs", "    /// Decode 4 base64 bytes into 3 bytes\n",
+                "    #[inline]\n    fn sextet(symbol: u8) -> u8 {\n        BASE64_DECODE[symbol as usize]\n    }\n\n    /// Decode 4 base64 bytes into 3 bytes\n"),
+               ("src/decoder.rs", DEC4_BODY,
+                "        let (o0, o1, o2, o3) = (\n            Self::sextet(chunk[0]),\n            Self::sextet(chunk[1]),\n"
+                "            Self::sextet(chunk[2]),\n            Self::sextet(chunk[3]),\n        );\n"
+                "        [(o0 << 2) | (o1 >> 4), (o1 << 4) | (o2 >> 2), (o2 << 6) | o3]\n")]},
+    # buffer_fill: decode + store step extracted into a private helper
+    {"id": "C14-benign-fill-store-helper", "prop": "C14", "benign": True,
+     "edits": [("src/decoder.rs", BUFFER_FN,
+                BUFFER_FN + "\n    fn push_quantum(&mut self, input: [u8; 4]) {\n" + FILL_STORE.replace(I12, I8) + "    }\n"),
+               ("src/decoder.rs", FILL_STORE, "            self.push_quantum(input);\n")]},
+    # buffer_fill: the retry loop extracted into a private helper returning the number of bytes collected
+    {"id": "C14-benign-fill-read-helper", "prop": "C14", "benign": True,
+     "edits": [("src/decoder.rs", BUFFER_FN,
+                BUFFER_FN + "\n    fn read_quantum(&mut self, input: &mut [u8; 4]) -> std::io::Result<usize> {\n"
+                + READ_RETRY.replace(I12, I8) + "        Ok(filled)\n    }\n"),
+               ("src/decoder.rs", "            // the inner reader may return fewer bytes than requested: keep reading\n"
+                "            // until a full quantum is collected or the end of input is reached\n" + READ_RETRY,
+                "            let filled = self.read_quantum(&mut input)?;\n")]},
+    # read: the copy step extracted into a private helper returning the number of bytes copied
+    {"id": "C14-benign-read-copy-helper", "prop": "C14", "benign": True,
+     "edits": [("src/decoder.rs", BUFFER_FN,
+                BUFFER_FN + "\n    fn copy_out(&mut self, out: &mut [u8], out_offset: usize) -> usize {\n"
+                "        let buffer = self.buffer();\n        let size = buffer.len().min(out.len() - out_offset);\n"
+                "        out[out_offset..out_offset + size].copy_from_slice(&buffer[..size]);\n        self.buffer_offset += size;\n        size\n    }\n"),
+               ("src/decoder.rs", "            let buffer = self.buffer();\n            if buffer.is_empty() {\n                break;\n            }\n" + COPY,
+                "            if self.buffer().is_empty() {\n                break;\n            }\n            out_offset += self.copy_out(out, out_offset);\n")]},
+    # read: `while cond` -> `loop { if !cond { break } .. }`
+    {"id": "C14-benign-read-loop-break", "prop": "C14", "benign": True,
+     "edits": [("src/decoder.rs", "        while out_offset < out.len() {\n            if self.buffer().is_empty() {",
+                "        loop {\n            if out_offset >= out.len() {\n                break;\n            }\n            if self.buffer().is_empty() {")]},
+]
+
+MUTANTS += [
+    # iterator chain with a closure (strictly the same function of the chunk: position of the first '=' among the last two characters)
+    {"id": "C14-benign-decode-size-iterator", "prop": "C14", "benign": True,
+     "edits": [("src/decoder.rs", DECODE_SIZE_BODY,
+                "        match chunk[2..].iter().position(|&symbol| symbol == b'=') {\n            Some(0) => 1,\n            Some(1) => 2,\n            _ => 3,\n        }\n")]},
+]
+
+DEC_FNS = (
+    "    /// Decode 4 base64 bytes into 3 bytes\n    #[inline]\n    fn decode_u8x4(chunk: [u8; 4]) -> [u8; 3] {\n" + DEC4_BODY + "    }\n\n"
+    "    /// Decode number of encoded bytes based on the padding symbol\n    #[inline]\n    fn decode_size(chunk: [u8; 4]) -> usize {\n" + DECODE_SIZE_BODY + "    }\n"
+)
+
+MUTANTS += [
+    # the two pure decode functions merged into one returning (bytes, count)
+    {"id": "C14-benign-decode-merged", "prop": "C14", "benign": True,
+     "edits": [("src/decoder.rs", DEC_FNS,
+                "    /// Decode 4 base64 bytes into 3 bytes and the number of them that are data\n    #[inline]\n"
+                "    fn decode_quantum(chunk: [u8; 4]) -> ([u8; 3], usize) {\n"
+                + DEC4_BODY.replace("        [b0, b1, b2]\n", "")
+                + "        let size = if i2 == b'=' {\n            1\n        } else if i3 == b'=' {\n            2\n        } else {\n            3\n        };\n"
+                "        ([b0, b1, b2], size)\n    }\n"),
+               ("src/decoder.rs", "            let out = Self::decode_u8x4(input);\n            let out_size = Self::decode_size(input);\n",
+                "            let (out, out_size) = Self::decode_quantum(input);\n")]},
+    # the private accessor buffer() inlined at its two call sites
+    {"id": "C14-benign-buffer-accessor-inlined", "prop": "C14", "benign": True,
+     "edits": [("src/decoder.rs", BUFFER_FN + "\n", ""),
+               ("src/decoder.rs", "            if self.buffer().is_empty() {\n                self.buffer_fill()?;\n            }\n            let buffer = self.buffer();\n",
+                "            if self.buffer_offset == self.buffer_size {\n                self.buffer_fill()?;\n            }\n"
+                "            let buffer = &self.buffer[self.buffer_offset..self.buffer_size];\n")]},
+]
+
+
+FINISH_SLICE_MATCH = (
+    I8 + "let tail = match buffer[..size] {\n"
+    + I12 + "[] => return Ok(inner),\n"
+    + I12 + "[s0] => [\n" + I16 + "BASE64_ENCODE[(s0 >> 2) as usize],\n" + I16 + "BASE64_ENCODE[((s0 << 4) & 0x3f) as usize],\n" + I16 + "b'=',\n" + I16 + "b'=',\n" + I12 + "],\n"
+    + I12 + "[s0, s1] => [\n" + I16 + "BASE64_ENCODE[(s0 >> 2) as usize],\n" + I16 + "BASE64_ENCODE[(((s0 << 4) | (s1 >> 4)) & 0x3f) as usize],\n"
+    + I16 + "BASE64_ENCODE[((s1 << 2) & 0x3f) as usize],\n" + I16 + "b'=',\n" + I12 + "],\n"
+    + I12 + "[s0, s1, s2, ..] => Self::encode_u8x3([s0, s1, s2]),\n"
+    + I8 + "};\n"
+    + I8 + "inner.write_all(&tail)?;\n"
+    + I8 + "Ok(inner)\n"
+)
+LEN_ERR_BRANCH = (
+    "            if filled == 0 {\n                break;\n            } else if filled != 4 {\n"
+    "                " + LEN_ERR + "\n            }\n"
+)
+
+MUTANTS += [
+    # seeded/benign C14-D: finish as a match on slice patterns of the pending bytes (rest pattern for the full carry), shared helper
+    {"id": "C14-benign-finish-slice-patterns", "prop": "C14", "benign": True,
+     "edits": [("src/encoder.rs", FINISH_DOC, ENC_HELPER + FINISH_DOC),
+               ("src/encoder.rs", WRITE_EMIT, I16 + "let quad = Self::encode_u8x3(self.buffer);\n" + I16 + "self.inner.write_all(&quad)?;\n"),
+               ("src/encoder.rs", FINISH_BODY, FINISH_SLICE_MATCH)]},
+    # seeded/benign C14-E: named constants used as *patterns* (constant patterns, not bindings), `n <= len - 3` guard, `out[a..][..n]`
+    {"id": "C14-benign-const-patterns-suffix-prefix", "prop": "C14", "benign": True,
+     "edits": [("src/decoder.rs", "pub struct Base64Decoder<R> {", "const BASE64_PAD: u8 = b'=';\nconst BASE64_QUANTUM: usize = 4;\n\npub struct Base64Decoder<R> {"),
+               ("src/decoder.rs", DECODE_SIZE_BODY, "        match chunk {\n            [_, _, BASE64_PAD, _] => 1,\n            [_, _, _, BASE64_PAD] => 2,\n            _ => 3,\n        }\n"),
+               ("src/decoder.rs", "while self.buffer_size + 3 <= self.buffer.len() {\n            let mut input = [0u8; 4];",
+                "while self.buffer_size <= self.buffer.len() - 3 {\n            let mut input = [0u8; BASE64_QUANTUM];"),
+               ("src/decoder.rs", LEN_ERR_BRANCH,
+                "            match filled {\n                0 => break,\n                BASE64_QUANTUM => {}\n                _ => {\n                    " + LEN_ERR + "\n                }\n            }\n"),
+               ("src/decoder.rs", "            let size = buffer.len().min(out.len() - out_offset);\n            out[out_offset..out_offset + size].copy_from_slice(&buffer[..size]);\n",
+                "            let size = std::cmp::min(out.len() - out_offset, buffer.len());\n            out[out_offset..][..size].copy_from_slice(&buffer[..size]);\n")]},
+    # seeded/benign C14-F: fast paths in read and finish, debug_assert!s inside the copy loop
+    {"id": "C14-benign-fast-paths-asserts", "prop": "C14", "benign": True,
+     "edits": [("src/decoder.rs", READ_LOOP_HEAD + "            if self.buffer().is_empty() {",
+                "        if out.is_empty() {\n            return Ok(0);\n        }\n        let out_len = out.len();\n        let mut out_offset = 0;\n        while out_offset < out_len {\n"
+                "            debug_assert!(self.buffer_offset <= self.buffer_size);\n            debug_assert!(self.buffer_size <= self.buffer.len());\n            if self.buffer().is_empty() {"),
+               ("src/decoder.rs", "let size = buffer.len().min(out.len() - out_offset);", "let size = buffer.len().min(out_len - out_offset);"),
+               ("src/decoder.rs", "            let out_size = Self::decode_size(input);\n", "            let out_size = Self::decode_size(input);\n            debug_assert!((1..=out.len()).contains(&out_size));\n"),
+               ("src/encoder.rs", "        let mut dst = [b'='; 4];\n        let mut iter = buffer[..size].iter();\n",
+                "        if size == 0 {\n            return Ok(inner);\n        }\n        let mut dst = [b'='; 4];\n        let mut iter = buffer[..size].iter();\n")]},
+    # a const used as a pattern must be compared, not bound: here the wrong constant (3) is the pattern
+    {"id": "C14-const-pattern-wrong-value", "prop": "C14", "expect": "LEN-ERROR",
+     "edits": [("src/decoder.rs", "pub struct Base64Decoder<R> {", "const BASE64_QUANTUM: usize = 3;\n\npub struct Base64Decoder<R> {"),
+               ("src/decoder.rs", LEN_ERR_BRANCH,
+                "            match filled {\n                0 => break,\n                4 | BASE64_QUANTUM => {}\n                _ => {\n                    " + LEN_ERR + "\n                }\n            }\n")]},
+    # `out[a..][..n]` without the minimum: the SUFFIX-PREFIX lemma must not apply
+    {"id": "C14-suffix-prefix-no-min", "prop": "C14", "expect": "READ-MIN",
+     "edits": [("src/decoder.rs", "            let size = buffer.len().min(out.len() - out_offset);\n            out[out_offset..out_offset + size].copy_from_slice(&buffer[..size]);\n",
+                "            let size = buffer.len();\n            out[out_offset..][..size].copy_from_slice(&buffer[..size]);\n")]},
+]
+
+
+def _benign(mid):
+    return [m for m in MUTANTS if m["id"] == mid][0]["edits"]
+
+
+# breaking changes hidden behind the refactored shapes: seeing through helpers / other idioms must not hide them
+MUTANTS += [
+    {"id": "C14-helper-wrong-shift", "prop": "C14", "expect": "ENC-BITS/encoder::Base64Encoder::write/write-full:char2",
+     "edits": _benign("C14-benign-encode-helper") + [("src/encoder.rs", "            BASE64_ENCODE[(((s1 << 2) | (s2 >> 6)) & 0x3f) as usize],\n", "            BASE64_ENCODE[(((s1 << 2) | (s2 >> 7)) & 0x3f) as usize],\n")]},
+    {"id": "C14-shared-helper-pad-off-by-one", "prop": "C14", "expect": "ENC-",
+     "edits": _benign("C14-benign-encode-helper-shared") + [("src/encoder.rs", "for pad in size + 1..4 {", "for pad in size + 2..4 {")]},
+    {"id": "C14-finish-match-stale-byte", "prop": "C14", "expect": "ENC-BITS/encoder::Base64Encoder::finish/finish-2:char2",
+     "edits": [("src/encoder.rs", FINISH_BODY, FINISH_MATCH.replace(
+         I16 + "dst[2] = BASE64_ENCODE[((buffer[1] << 2) & 0x3f) as usize];\n", I16 + "dst[2] = BASE64_ENCODE[(((buffer[1] << 2) | (buffer[2] >> 6)) & 0x3f) as usize];\n"))]},
+    # emission made to depend on a data byte: not evaluable -> fail closed
+    {"id": "C14-write-data-dependent-emit", "prop": "C14", "expect": "ENC-BITS/ANCHOR",
+     "edits": [("src/encoder.rs", I16 + "self.inner.write_all(&dst)?;\n" + I16 + "self.size = 0;\n",
+                I16 + "if s0 != 0 {\n" + I16 + "    self.inner.write_all(&dst)?;\n" + I16 + "}\n" + I16 + "self.size = 0;\n")]},
+    # `continue` form of write with the reset before the emission lost on the way
+    {"id": "C14-write-continue-no-reset", "prop": "C14", "expect": "CARRY",
+     "edits": [("src/encoder.rs", WRITE_LOOP,
+                WRITE_LOOP_HEAD + I12 + "self.size += 1;\n" + I12 + "if 3 > self.size {\n" + I16 + "continue;\n" + I12 + "}\n"
+                + WRITE_EMIT.replace(I16, I12) + I8 + "}\n")]},
+    {"id": "C14-merged-decode-size-swapped", "prop": "C14", "expect": "DEC-USE",
+     "edits": _benign("C14-benign-decode-merged") + [("src/decoder.rs", "        let size = if i2 == b'=' {\n            1\n        } else if i3 == b'=' {\n            2\n", "        let size = if i2 == b'=' {\n            2\n        } else if i3 == b'=' {\n            1\n")]},
+    {"id": "C14-fill-helper-size-plus-3", "prop": "C14", "expect": "DEC-USE",
+     "edits": _benign("C14-benign-fill-store-helper") + [("src/decoder.rs", "        self.buffer_size += out_size;\n", "        self.buffer_size += 3;\n")]},
+    {"id": "C14-read-copy-helper-no-min", "prop": "C14", "expect": "READ-MIN",
+     "edits": _benign("C14-benign-read-copy-helper") + [("src/decoder.rs", "        let size = buffer.len().min(out.len() - out_offset);\n        out[out_offset", "        let size = buffer.len();\n        out[out_offset")]},
+    {"id": "C14-fill-read-helper-single-read", "prop": "C14", "expect": "SHORT-READ",
+     "edits": _benign("C14-benign-fill-read-helper") + [("src/decoder.rs", "        while filled < input.len() {\n            let size = self.read.read(&mut input[filled..])?;\n            if size == 0 {\n                break;\n            }\n            filled += size;\n        }\n        Ok(filled)",
+                                                          "        if filled < input.len() {\n            let size = self.read.read(&mut input[filled..])?;\n            filled += size;\n        }\n        Ok(filled)")]},
+    {"id": "C14-fast-path-wrong-guard", "prop": "C14", "expect": "READ-MIN",
+     "edits": [("src/decoder.rs", READ_LOOP_HEAD, "        if out.len() <= 1 {\n            return Ok(0);\n        }\n" + READ_LOOP_HEAD)]},
+    {"id": "C14-fast-path-drops-buffered", "prop": "C14", "expect": "READ-MIN",
+     "edits": [("src/decoder.rs", READ_LOOP_HEAD, "        if out.is_empty() {\n            self.buffer_offset = self.buffer_size;\n            return Ok(0);\n        }\n" + READ_LOOP_HEAD)]},
+    {"id": "C14-accessor-inlined-wrong-window", "prop": "C14", "expect": "",
+     "edits": _benign("C14-benign-buffer-accessor-inlined") + [("src/decoder.rs", "            let buffer = &self.buffer[self.buffer_offset..self.buffer_size];\n", "            let buffer = &self.buffer[..self.buffer_size];\n")]},
+]
+
+# Behaviour-preserving edits on which the C14 *rules* are silent but the shared numeric engine (sa/absint.py, sa/summaries.py, sa/structinv.py:
+# TOTAL / INV-* of `obligations()`) cannot discharge its obligations yet.  Not part of MUTANTS; move them there when the engine has
+#   - a summary for `<uN as From<uM>>::from` (lossless widening: result = argument),
+#   - a bound `Iterator::count() <= len` for adaptor chains over a slice of known length,
+#   - struct invariants that are inductive across the calls of a closure capturing `&mut self` (try_for_each / for_each bodies).
+ENGINE_LIMITED = [
+    {"id": "C14-benign-sextet-helper-from", "prop": "C14", "benign": True,
+     "edits": [("src/decoder.rs", "    /// Decode 4 base64 bytes into 3 bytes\n",
+                "    #[inline]\n    fn sextet(symbol: u8) -> u8 {\n        BASE64_DECODE[usize::from(symbol)]\n    }\n\n    /// Decode 4 base64 bytes into 3 bytes\n"),
+               ("src/decoder.rs", DEC4_BODY,
+                "        let (o0, o1, o2, o3) = (\n            Self::sextet(chunk[0]),\n            Self::sextet(chunk[1]),\n"
+                "            Self::sextet(chunk[2]),\n            Self::sextet(chunk[3]),\n        );\n"
+                "        [(o0 << 2) | (o1 >> 4), (o1 << 4) | (o2 >> 2), (o2 << 6) | o3]\n")]},
+    {"id": "C14-benign-decode-size-count", "prop": "C14", "benign": True,
+     "edits": [("src/decoder.rs", DECODE_SIZE_BODY, "        1 + chunk[2..].iter().take_while(|&&symbol| symbol != b'=').count()\n")]},
+    {"id": "C14-benign-write-try-for-each", "prop": "C14", "benign": True,
+     "edits": [("src/encoder.rs", WRITE_LOOP + "        Ok(buf.len())\n",
+                I8 + "buf.iter().copied().try_for_each(|b| -> std::io::Result<()> {\n"
+                + I12 + "self.buffer[self.size] = b;\n" + I12 + "self.size += 1;\n" + I12 + "if self.size == 3 {\n"
+                + WRITE_EMIT + I16 + "self.size = 0;\n" + I12 + "}\n" + I12 + "Ok(())\n" + I8 + "})?;\n" + I8 + "Ok(buf.len())\n")]},
+]
